@@ -250,7 +250,7 @@ def replay_direct(path, extra_tests=None):
               'scripted case): see "broken" / "what"')
         return 1
     chain = ast.literal_eval(c['chain'])
-    X = np.array(c['X'], dtype=float)
+    X = dp.present(np.array(c['X'], dtype=float), c.get('array_presentation', 'float'))
     case = dict(cid=int(c.get('cid', 0)) if c.get('refitted_after_other_layout') else 0, chain=chain, ns=c['n_states'], nu=c['n_inputs'], ep=c['episode_feature'], X=X, Xfit=X,
                 mode=c.get('layout'), w=c.get('min_samples'), dims=None)
     if c.get('fit_on_zero_inputs'):
